@@ -63,7 +63,7 @@ Proof. exact upd_nth_other. Qed.
 (* ---- histories ---- *)
 From AV.Model Require Import Interp.
 From AV.Spec Require Import WorldSpec.
-From AV.Proofs Require Import WorldProofs.
+From AV.Proofs Require Import WorldProofs WorldMore.
 (** WHOLE HISTORIES: element handles are steps of the history fragment of AV.Props.C01.  Reading element i through any view kind gives the list's i-th value ([WorldSpec.sp_look], case ORead; out of range: None); writing a new value through a handle replaces exactly element i, hands back the old value and changes nothing else ([WorldSpec.sp_write], out of range: PIndex, nothing changes); swapping through two handles of different vectors exchanges exactly those two values ([WorldSpec.sp_swap]).  The byte-level machine does this at any point of any history, and every other vector's list stays what it was because the specification's vectors are separate lists ([C13_write_in_histories], [C13_swap_in_histories], [C13_read_in_histories]). *)
 Theorem C13_read_in_histories :
   forall (c : cfg) (w : world) (st : astate) (o : op) (r : sres),
@@ -86,6 +86,17 @@ Theorem C13_swap_in_histories :
          sp_swap c st (unext (wuw w)) v1 i v2 j = Some r -> res_matches c w (exec c (OSwap 0 v1 i v2 j) w) r.
 Proof. exact exec_swap. Qed.
 
+(** the removal handle of v1[i] (remove(i), before it is consumed) swapped with the element handle of v2[j], then dropped, as a step of any history: v2[j] holds what was v1[i], the value that was v2[j] is destroyed with the handle, v1 has lost position i, nothing else changes *)
+Theorem C13_swap_with_removal_handle_in_histories :
+  forall (c : cfg) (w : world) (st : astate) (pr : N) (v1 : nat) (i : N) (v2 : nat) (j : N) (r : sres),
+         cfg_wf c ->
+         WRep c w st ->
+         ufuse (wuw w) = None ->
+         pr <> 0 ->
+         sp_swap_temp c st (unext (wuw w)) v1 i v2 j = Some r ->
+         res_matches c w (exec c (OSwap pr v1 i v2 j) w) r.
+Proof. exact exec_swap_temp. Qed.
+
 (* ---- end histories ---- *)
 Print Assumptions C13_get.
 Print Assumptions C13_read.
@@ -96,3 +107,4 @@ Print Assumptions C13_upd_other.
 Print Assumptions C13_read_in_histories.
 Print Assumptions C13_write_in_histories.
 Print Assumptions C13_swap_in_histories.
+Print Assumptions C13_swap_with_removal_handle_in_histories.
